@@ -498,6 +498,25 @@ def gen(rng, tier, i):
             p.file('g/gi.c', '\n' * pad1 + body + 'void create() { }\n')
             p.meta['gi'] = ['g/gi.c', pad1 + line_in_body]
         p.cycle(send(0, 'do comp gi /g/gi\r\n'))
+    # headers with include guards that include each other (or themselves): the inner copy is skipped as a whole, and the lines
+    # of the functions behind the #include are what they are in the file
+    if rng.random() < 0.4:
+        def pad(): return '// pad\n' * rng.randint(0, 6)
+        self_inc = rng.random() < 0.4
+        exp = []
+        a = pad() + '#ifndef MA_H\n#define MA_H\n' + pad() + '#include "/g/%s.h"\n' % ('ma' if self_inc else 'mb') + pad()
+        la = a.count('\n') + 2
+        a += 'int mfa() {\n  return 1 / mz();\n}\n#endif\n'
+        b = pad() + '#ifndef MB_H\n#define MB_H\n#include "/g/ma.h"\n' + pad()
+        lb = b.count('\n') + 2
+        b += 'int mfb() {\n  return 2 / mz();\n}\n#endif\n'
+        c = pad() + 'int mz() { return 0; }\n#include "/g/ma.h"\n' + pad()
+        lc = c.count('\n') + 2
+        c += 'int mfc() {\n  return 3 / mz();\n}\nvoid go() { catch(mfa()); %scatch(mfc()); }\n' % ('' if self_inc else 'catch(mfb()); ')
+        p.file('g/ma.h', a); p.file('g/mi.c', c)
+        if not self_inc: p.file('g/mb.h', b)
+        p.meta['mi'] = [['g/ma.h', la]] + ([] if self_inc else [['g/mb.h', lb]]) + [['g/mi.c', lc]]
+        p.cycle(send(0, 'do call /g/mi go\r\n'))
     p.idle(1)
     p.meta['segs'] = w.segs
     p.meta['scen'] = i
@@ -561,6 +580,17 @@ def check_base(plan, res):
             v.append(Violation(PROP, 'no-report', 'the failing initialiser of a global variable in %s:%d was never reported' % (gf, gl), PROP + '/natural/initialiser-unreported'))
         elif gie[0]['file'] != gf or gie[0]['line'] != gl:
             v.append(Violation(PROP, 'line', 'runtime error raised by the initialiser of a global variable at %s:%d is reported at %s:%d' % (gf, gl, gie[0]['file'], gie[0]['line']), PROP + '/natural/initialiser-line'))
+    mie = [x for x in nat if x and x['program'] == 'g/mi.c']
+    nat = [x for x in nat if not (x and x['program'] == 'g/mi.c')]
+    if plan.meta.get('mi'):
+        want_mi = [tuple(x) for x in plan.meta['mi']]
+        got_mi = [(x['file'], x['line']) for x in mie]
+        if len(got_mi) == len(want_mi) and got_mi != want_mi:
+            k = next(i for i in range(len(want_mi)) if got_mi[i] != want_mi[i])
+            v.append(Violation(PROP, 'line', 'headers with include guards that include %s: the runtime error at %s:%d is reported at %s:%d' % ('each other' if len(want_mi) == 3 else 'themselves', want_mi[k][0], want_mi[k][1], got_mi[k][0], got_mi[k][1]),
+                               PROP + '/natural/guarded-%s-inclusion' % ('mutual' if len(want_mi) == 3 else 'self')))
+        elif len(got_mi) != len(want_mi):
+            v.append(Violation(PROP, 'harness', 'the guarded-header program reported %d runtime errors, %d expected' % (len(got_mi), len(want_mi)), PROP + '/harness/guarded-header-count'))
     if errs:
         v.append(Violation(PROP, 'harness', 'the generated program does not compile cleanly: %s' % errs[0][:300], PROP + '/harness/program-error'))
     elif got != want:
